@@ -110,14 +110,19 @@ class ClassicalGate(Box):
             self.name, self.cod, self.dom, self.array, _dagger)
 
     def subs(self, *args):
+        if not self.free_symbols:
+            return self
         data = rsubs(list(self.data.flatten()), *args)
-        return ClassicalGate(self.name, self.dom, self.cod, data)
+        return ClassicalGate(
+            self.name, self.dom, self.cod, data, _dagger=self._dagger)
 
     def lambdify(self, *symbols, **kwargs):
+        if not self.free_symbols:
+            return lambda *xs: self
         from sympy import lambdify
         data = lambdify(symbols, self.data, dict(kwargs, modules=Tensor.np))
         return lambda *xs: ClassicalGate(
-            self.name, self.dom, self.cod, data(*xs))
+            self.name, self.dom, self.cod, data(*xs), _dagger=self._dagger)
 
     def grad(self, var, **params):
         if var not in self.free_symbols:
